@@ -32,10 +32,10 @@ def rowOfSexp (i : Nat) : Sexp → Option Fact
   | _ => none
 
 def sexpOfResult (r : QueryResult) : Sexp :=
-  .list [.sym "q", .list (r.answers.map fun a => match a with
+  .list ([.sym "q", .list (r.answers.map fun a => match a with
                             | .fn _ args => .list (args.map sexpOfTerm)
                             | t => sexpOfTerm t),
-         sexpOfSig r.ending, .sym (toString r.bound)]
+         sexpOfSig r.ending, .sym (toString r.bound)] ++ (if r.cyc then [.sym "cyclic"] else []))
 
 /-- One API operation of a scenario. -/
 def stepOp (mode : Mode) (fuel : Nat) (e : Engine) : Sexp → Engine × Sexp
